@@ -4,6 +4,70 @@ from vf import frontend
 from vf.report import MachineryDefect, Run
 
 
+DISPATCH_DOCUMENTS = [
+    "query Q($a: [Int!] = [1, 2] @d, $o: In = {k: [true, null], e: RED, f: 1.5, s: \"x\"}) { a: f(x: $a) @skip(if: true) ...F ... on T @d { g } ... { h } } "
+    "fragment F on T { f(o: {k: $a}) } mutation M { m } subscription S { s }",
+    "schema @s { query: Q } extend schema @s extend schema { mutation: M } \"d\" scalar S @a extend scalar S @a \"d\" type Q implements I & J @a { \"d\" f(\"d\" x: [Int!]! = [1] @a): Int @a } "
+    "extend type Q { g: Int } extend type Q implements K extend type Q @a interface I { f: Int } extend interface I @a extend interface I { h: Int } union U = Q | M extend union U = N "
+    "extend union U @a enum E { \"d\" A @a B } extend enum E { C } extend enum E @a input In { k: Int = 1 @a } extend input In { l: Int } extend input In @a "
+    "directive @a(x: Int = 1) on FIELD | OBJECT",
+]
+
+
+def dispatch_contract(run):
+    """DispatchingVisitor hands every node to the enter_* / leave_* hooks of its OWN kind, in the order a plain ASTVisitor enters and leaves them"""
+    import re
+    from py_gql.lang import parse
+    from py_gql.lang.visitor import ASTVisitor, DispatchingVisitor
+
+    def snake(cls):
+        return re.sub(r"(?<!^)(?=[A-Z])", "_", cls).lower()
+
+    class Plain(ASTVisitor):
+        def __init__(self):
+            self.log = []
+
+        def enter(self, node):
+            self.log.append(("enter", type(node).__name__, id(node)))
+            return node
+
+        def leave(self, node):
+            self.log.append(("leave", type(node).__name__, id(node)))
+
+    def make_recorder():
+        log = []
+        ns = {}
+        for name in dir(DispatchingVisitor):
+            if name.startswith("enter_"):
+                ns[name] = (lambda nm: lambda self, node: (log.append(("enter", nm[6:], type(node).__name__, id(node))), node)[1])(name)
+            elif name.startswith("leave_"):
+                ns[name] = (lambda nm: lambda self, node: log.append(("leave", nm[6:], type(node).__name__, id(node))) or None)(name)
+        return type("Recorder", (DispatchingVisitor,), ns)(), log
+    n = 0
+    for text in DISPATCH_DOCUMENTS:
+        doc = parse(text, allow_type_system=True)
+        plain = Plain()
+        plain.visit(doc)
+        rec, log = make_recorder()
+        rec.visit(doc)
+        n += 1
+        w = {"document": text}
+        wrong = [(phase, hook, cls) for phase, hook, cls, _i in log if hook != snake(cls)]
+        if wrong:
+            run.violation("dispatch:own-kind", "%s_%s was called with a %s node" % (wrong[0][0], wrong[0][1], wrong[0][2]), dict(w, hook="%s_%s" % wrong[0][:2], node=wrong[0][2]), True)
+            continue
+        got = [(phase, cls, i) for phase, _h, cls, i in log]
+        if got != plain.log:
+            missing = [e[:2] for e in plain.log if e not in got][:3]
+            run.violation("dispatch:own-kind", "the hooks of a DispatchingVisitor do not see the nodes a plain ASTVisitor enters and leaves, in that order (missing: %r)" % (missing,),
+                          dict(w, missing=missing), True)
+    kinds = {e[1] for t in DISPATCH_DOCUMENTS for e in (lambda p: (p.visit(parse(t, allow_type_system=True)), p.log)[1])(Plain())}
+    if len(kinds) < 40:
+        raise MachineryDefect("dispatch documents cover only %d node kinds" % len(kinds))
+    run.cov["bounded_functions"].append({"functions": ["py_gql.lang.visitor.DispatchingVisitor.enter / leave"], "bound": "%d documents covering %d node kinds" % (n, len(kinds))})
+    return n
+
+
 def check(tier, seed):
     run = Run("C18", tier, seed)
     total, nodes, edits, fails = frontend.visitor_check(tier, seed)
@@ -19,6 +83,8 @@ def check(tier, seed):
                                                        "py_gql._utils.map_and_filter"],
                                          "bound": "%d parsed documents of the derivation corpus; delete/replace/skip at every entered node of the first "
                                                   "documents of each worker (%d edit runs)" % (total, edits)})
+    nd = dispatch_contract(run)
+    run.cov["evaluations"] += nd
     for clause, witness, detail in fails:
         run.violation(clause, detail, witness, True)
     run.sample({"document": "query ($a: [Int!] = [1] @d) { ...F @skip(if: $a) } fragment F on T { f(x: {k: $a}) }",
